@@ -409,6 +409,46 @@ def reference_node(entry):
     return node
 
 
+def module_consts(repo, f):
+    """Module-level NAME = <number|string> constants visible to f."""
+    from .astutil import try_fold
+    consts = {}
+    for nm, v in f.module.assigns.items():
+        k = try_fold(v)
+        if isinstance(k, (int, float, str)) and not isinstance(k, bool):
+            consts[nm] = k
+    return consts
+
+
+def inlined_current(repo, f, node=None):
+    """The function with helpers that the reference does not have inlined at statement level."""
+    from . import normal
+    ref_all = reference()
+
+    def resolve_node(call):
+        try:
+            g = repo.resolve_call(call, f)
+        except Exception:
+            return None
+        if g is None:
+            return None
+        g.node._key = '%s:%s' % (g.rel, g.qualname)
+        g.node._bound_self = None
+        if g.cls is not None:
+            deco = {getattr(d, 'id', getattr(d, 'attr', None)) for d in g.node.decorator_list}
+            if deco:
+                return None
+            if isinstance(call.func, ast.Attribute) and isinstance(call.func.value, ast.Name) and call.func.value.id == 'self':
+                g.node._bound_self = ast.Name(id='self', ctx=ast.Load())
+            else:
+                return None
+        return g.node
+
+    def is_new(gnode):
+        return getattr(gnode, '_key', None) is not None and (gnode._key + '#src') not in ref_all
+    return normal.inline_new_helpers(node if node is not None else f.node, resolve_node, is_new)
+
+
 def _substitute_reference(repo, f, entry):
     """If the function is a respelling of the reference (equal normal forms, pydlsa/normal.py) analyse the reference spelling
     in its place.  Returns True when substituted."""
@@ -420,36 +460,8 @@ def _substitute_reference(repo, f, entry):
         if not isinstance(rnode, (ast.FunctionDef, ast.AsyncFunctionDef)):
             return False
         info = callee_info(repo, f)
-        from .astutil import try_fold
-        consts = {}
-        for nm, v in f.module.assigns.items():
-            k = try_fold(v)
-            if isinstance(k, (int, float, str)) and not isinstance(k, bool):
-                consts[nm] = k
-        ref_all = reference()
-
-        def resolve_node(call):
-            try:
-                g = repo.resolve_call(call, f)
-            except Exception:
-                return None
-            if g is None:
-                return None
-            g.node._key = '%s:%s' % (g.rel, g.qualname)
-            g.node._bound_self = None
-            if g.cls is not None:
-                deco = {getattr(d, 'id', getattr(d, 'attr', None)) for d in g.node.decorator_list}
-                if deco:
-                    return None
-                if isinstance(call.func, ast.Attribute) and isinstance(call.func.value, ast.Name) and call.func.value.id == 'self':
-                    g.node._bound_self = ast.Name(id='self', ctx=ast.Load())
-                else:
-                    return None
-            return g.node
-
-        def is_new(gnode):
-            return getattr(gnode, '_key', None) is not None and (gnode._key + '#src') not in ref_all
-        cur = normal.inline_new_helpers(f.node, resolve_node, is_new)
+        consts = module_consts(repo, f)
+        cur = inlined_current(repo, f)
         if normal.nf_key(cur, info, consts) != normal.nf_key(rnode, info, consts):
             if cur is not f.node:
                 # not a pure respelling, but a block of it now lives in a helper the reference does not have: the rules look at the
